@@ -380,12 +380,30 @@ pub fn run(cfg: &Cfg) -> Outcome {
     let mut acc = Acc::new();
     let (bases, _) = check_from_ranges(&g, &mut acc);
     acc.add("distinct_base_schedules", bases.len() as u64);
-    let depth = if cfg.quick() { 2 } else { 3 };
+    // quick: 5-point grid, depth 2. thorough: 7-point grid at depth 2 (≈ 10⁸ transitions) and the
+    // 5-point grid at depth 3 (depth 3 on 7 points would be ≈ 7·10⁹ transitions)
+    let depth = 2;
     let cap = if cfg.quick() { 400_000 } else { 6_000_000 };
-    let ex1 = explore(cfg, &g, &bases, depth, cap, &mut acc);
+    let mut ex1 = explore(cfg, &g, &bases, depth, cap, &mut acc);
     let mut caps = Vec::new();
     if ex1.cap_hit {
         caps.push(format!("state cap {cap} reached at depth {}: deeper frontier truncated", ex1.max_depth));
+    }
+    if !cfg.quick() {
+        let quick_cfg = Cfg { tier: crate::Tier::Quick, ..cfg.clone() };
+        let g5 = grid(&quick_cfg);
+        let mut scratch = Acc::new();
+        let (bases5, _) = check_from_ranges(&g5, &mut scratch);
+        let ex3 = explore(cfg, &g5, &bases5, 3, cap, &mut acc);
+        if ex3.cap_hit {
+            caps.push(format!("5-point grid, depth 3: state cap {cap} reached"));
+        }
+        acc.add("states_5pt_grid_depth3", ex3.states);
+        acc.add("transitions_5pt_grid_depth3", ex3.transitions);
+        ex1.states += ex3.states;
+        ex1.transitions += ex3.transitions;
+        ex1.validated += ex3.validated;
+        ex1.max_depth = ex1.max_depth.max(ex3.max_depth);
     }
     // determinism: the same exploration twice gives the same counts (thorough tier)
     if !cfg.quick() {
@@ -410,7 +428,7 @@ pub fn run(cfg: &Cfg) -> Outcome {
     o.exhaustive = caps.is_empty();
     o.caps_hit = caps;
     o.cov("grid_minutes", json!(g));
-    o.cov("depth", json!(depth));
+    o.cov("depth", json!(if cfg.quick() { "2 (5-point grid)" } else { "2 (7-point grid) and 3 (5-point grid)" }));
     o.cov("max_depth", json!(ex1.max_depth));
     o.cov("distinct_cell_models_reached", json!(ex1.distinct_iterations));
     o.cov("rule", json!("explicit-state BFS over the real Schedule: init = empty ∪ every distinct from_ranges result (every ordered sequence of ≤3 ranges over grid×grid — empty, inverted, nested, overlapping, adjacent, duplicate — × 3 kinds × comments ∅/{a}/{b}); transition = real addition with a base schedule on either side; dedup by Debug rendering (the whole value) paired with the model cells; every state checked against the per-cell overlay model (inner ranges disjoint/increasing/non-empty, covered set, is_empty, into_iter is a gap-free tiling with closed holes and alternating kinds equal to the model, comments sorted/unique/from inputs); schedule! macro vs explicit calls on every 3-point chain. non-trivial = every reached state but the empty one"));
